@@ -391,8 +391,11 @@ func NewSimpleDB(basePath string, extraOptions ...ExtraOption) (*DB, error) {
 	mStore := memstore.NewMemStore()
 	rwLock := &sync.RWMutex{}
 	flusherChan := make(chan memStoreFlushAction)
-	doneFlushChan := make(chan bool)
-	doneCompactionChan := make(chan bool)
+	// the done signals are sent by deferred functions of the flusher and the compactor, also while they panic on an error.
+	// The channels are buffered so that this send can never block: otherwise a failed flush or compaction neither reports
+	// its error nor terminates the process, and the next rotation dead-locks while holding the database lock.
+	doneFlushChan := make(chan bool, 1)
+	doneCompactionChan := make(chan bool, 1)
 	compactionTimerStopChannel := make(chan interface{}, 1)
 
 	sstableManager := NewSSTableManager(cmp, rwLock, basePath)
